@@ -32,6 +32,7 @@ type Fact struct {
 	Q       *Sub // may be nil
 	Spare   *Sub // no rule reads it; the action F.P = F.Spare re-points F.P to it
 	Arr     []int64
+	Out     []int64 // written by rules (F.Out[<computed selector>] = ...), never read by one
 	M       map[string]int64
 	Once    int64 // written only by Mark(), never read by a rule
 
@@ -96,6 +97,7 @@ func cloneFact(f *Fact) *Fact {
 		g.Spare = &sp
 	}
 	g.Arr = append([]int64{}, f.Arr...)
+	g.Out = append([]int64{}, f.Out...)
 	g.M = map[string]int64{}
 	for k, v := range f.M {
 		g.M[k] = v
@@ -206,6 +208,9 @@ func (w *World) Snapshot() J {
 	}
 	for i, v := range f.Arr {
 		s["F.Arr["+strconv.Itoa(i)+"]"] = v
+	}
+	for i, v := range f.Out {
+		s["F.Out["+strconv.Itoa(i)+"]"] = v
 	}
 	keys := make([]string, 0, len(f.M))
 	for k := range f.M {
